@@ -22,6 +22,15 @@ Model/Api.vos Model/Api.vok Model/Api.required_vos: Model/Api.v Base/Base.vos Mo
 Proofs/ReaderTotal.vo Proofs/ReaderTotal.glob Proofs/ReaderTotal.v.beautified Proofs/ReaderTotal.required_vo: Proofs/ReaderTotal.v Base/Base.vo Model/Reader.vo
 Proofs/ReaderTotal.vio: Proofs/ReaderTotal.v Base/Base.vio Model/Reader.vio
 Proofs/ReaderTotal.vos Proofs/ReaderTotal.vok Proofs/ReaderTotal.required_vos: Proofs/ReaderTotal.v Base/Base.vos Model/Reader.vos
+Proofs/EvalRel.vo Proofs/EvalRel.glob Proofs/EvalRel.v.beautified Proofs/EvalRel.required_vo: Proofs/EvalRel.v Base/Base.vo Model/Reader.vo Model/Printer.vo Model/Store.vo Model/Eval.vo Proofs/ReaderTotal.vo
+Proofs/EvalRel.vio: Proofs/EvalRel.v Base/Base.vio Model/Reader.vio Model/Printer.vio Model/Store.vio Model/Eval.vio Proofs/ReaderTotal.vio
+Proofs/EvalRel.vos Proofs/EvalRel.vok Proofs/EvalRel.required_vos: Proofs/EvalRel.v Base/Base.vos Model/Reader.vos Model/Printer.vos Model/Store.vos Model/Eval.vos Proofs/ReaderTotal.vos
+Props/C03.vo Props/C03.glob Props/C03.v.beautified Props/C03.required_vo: Props/C03.v Base/Base.vo Model/Reader.vo Model/Printer.vo Model/Store.vo Model/Eval.vo Model/Init.vo Proofs/EvalRel.vo
+Props/C03.vio: Props/C03.v Base/Base.vio Model/Reader.vio Model/Printer.vio Model/Store.vio Model/Eval.vio Model/Init.vio Proofs/EvalRel.vio
+Props/C03.vos Props/C03.vok Props/C03.required_vos: Props/C03.v Base/Base.vos Model/Reader.vos Model/Printer.vos Model/Store.vos Model/Eval.vos Model/Init.vos Proofs/EvalRel.vos
 Props/C08.vo Props/C08.glob Props/C08.v.beautified Props/C08.required_vo: Props/C08.v Base/Base.vo Model/Reader.vo Proofs/ReaderTotal.vo
 Props/C08.vio: Props/C08.v Base/Base.vio Model/Reader.vio Proofs/ReaderTotal.vio
 Props/C08.vos Props/C08.vok Props/C08.required_vos: Props/C08.v Base/Base.vos Model/Reader.vos Proofs/ReaderTotal.vos
+Props/C10.vo Props/C10.glob Props/C10.v.beautified Props/C10.required_vo: Props/C10.v Base/Base.vo Model/Reader.vo Model/Printer.vo Model/Store.vo Model/Eval.vo Model/Init.vo Proofs/EvalRel.vo
+Props/C10.vio: Props/C10.v Base/Base.vio Model/Reader.vio Model/Printer.vio Model/Store.vio Model/Eval.vio Model/Init.vio Proofs/EvalRel.vio
+Props/C10.vos Props/C10.vok Props/C10.required_vos: Props/C10.v Base/Base.vos Model/Reader.vos Model/Printer.vos Model/Store.vos Model/Eval.vos Model/Init.vos Proofs/EvalRel.vos
